@@ -101,6 +101,52 @@ def check_continued(acc, mname, ri, sensor, idx, op, thr, base_vals, base_obs, t
     acc.cases += 1
 
 
+def check_reused(acc, mname, ri, sensor, idx, op, thr, base_vals, base_obs, tag):
+    """ONE StopCondition object used for a run, then again after reset (same solver) and for a continuation."""
+    spec = model_spec(mname)
+    dt, T = RUNS[ri]
+    case = {'kind': 'thr-reuse', 'model': mname, 'run': ri, 'sensor': sensor, 'idx': idx, 'op': op, 'thr': thr, 'tag': tag}
+    m = sim.Model(spec)
+    stop = sim.make_stop(m, [sensor, idx, op, thr])
+    full = len(base_vals)
+    hold = [OPS[op](v, thr[0]) for v in base_vals]
+    kstar = next((k for k in range(1, full) if hold[k]), None)
+    expected = full if kstar is None else kstar + 1
+    try:
+        m.run(dt, T, stop=stop)
+        n1 = len(m.pt.time)
+        m.pt.reset()
+        m.apply_init()
+        m.run(dt, T, stop=stop)
+        n2 = len(m.pt.time)
+    except Exception as ex:
+        acc.violation(f'C16/reused/run-error/{type(ex).__name__}', 'runs succeed', case, {'exc': repr(ex)[:200]})
+        return
+    acc.executions += 2
+    acc.transitions += n1 + n2
+    if n1 != expected or n2 != expected:
+        acc.violation(f'C16/reused/stop-instant/{sensor}/{op}', 'a stop condition object used for a second run (after reset) ends it at the first instant it holds', case,
+                      {'first_run_instants': n1, 'second_run_instants': n2, 'expected': expected})
+        return
+    # continuation with the same object: first hit after the continuation starts
+    if kstar is not None and kstar + 2 < full:
+        try:
+            m.run(dt, [dt[0] * (full - 1 - kstar), dt[1]], stop=stop)
+        except Exception as ex:
+            acc.violation(f'C16/reused/run-error/{type(ex).__name__}', 'continuation succeeds', case, {'exc': repr(ex)[:200]})
+            return
+        k2 = next((k for k in range(kstar + 1, full) if hold[k]), None)
+        exp3 = full if k2 is None else k2 + 1
+        n3 = len(m.pt.time)
+        acc.executions += 1
+        if n3 != exp3:
+            acc.violation(f'C16/reused/continuation-stop-instant/{sensor}/{op}', 'the same stop condition object given to a continuation ends it at the first instant of that run at which it holds', case,
+                          {'instants': n3, 'expected': exp3, 'first_stop_at': kstar})
+            return
+    acc.outcomes['reused-ok'] += 1
+    acc.cases += 1
+
+
 def check_threshold(acc, mname, ri, sensor, idx, op, thr, base_vals_in_thr_unit, base_obs, tag):
     """thr = [value, unit]; base_vals_in_thr_unit: unstopped series expressed in thr's unit (plain floats)."""
     spec = model_spec(mname)
@@ -177,6 +223,9 @@ def run_shard(shard, tier):
             if tag in ('mid', 'below-min', 'above-max') and op in ('>=', '<'):
                 check_continued(acc, mname, ri, sensor, idx, op, thr, vals0, base_obs, tag, pre=3)
                 acc.nstates += 1
+            if tag == 'mid' and op in ('>', '<='):
+                check_reused(acc, mname, ri, sensor, idx, op, thr, vals0, base_obs, tag)
+                acc.nstates += 1
             if first:
                 acc.sample({'model': mname, 'dt_T': RUNS[ri], 'sensor': sensor, 'element': idx, 'operator': op,
                             'threshold': thr, 'placement': tag})
@@ -201,6 +250,16 @@ def run_shard(shard, tier):
 
 def replay(case):
     acc = Acc()
+    if case.get('kind') == 'thr-reuse':
+        spec = model_spec(case['model'])
+        dt, T = RUNS[case['run']]
+        base, info = sim.run_schedule(spec, [('run', dt, T, None, None)])
+        kind = sim.SENSOR_KIND[case['sensor']][0]
+        series = raw_series(base, case['sensor'], case['idx'])
+        u = case['thr'][1]
+        vals = [si.convert(q.value, kind, q.unit, u) if q.unit != u else q.value for q in series]
+        check_reused(acc, case['model'], case['run'], case['sensor'], case['idx'], case['op'], case['thr'], vals, base.observe(), case['tag'])
+        return acc.violations
     if case.get('kind') == 'thr-cont':
         spec = model_spec(case['model'])
         dt, T = RUNS[case['run']]
